@@ -349,10 +349,22 @@ func dbExec(ops []string) (dops []string, res []string) {
 			r.gated = false
 			r.mu.Unlock()
 			r.unpark()
-			for _, t := range txns {
-				t.Discard()
+			// best effort, bounded: after a reported hang the engine may never finish these calls
+			cd := make(chan struct{})
+			go func() {
+				defer close(cd)
+				defer func() { _ = recover() }()
+				for _, t := range txns {
+					if t != nil {
+						t.Discard()
+					}
+				}
+				r.db.Close()
+			}()
+			select {
+			case <-cd:
+			case <-time.After(5 * time.Second):
 			}
-			r.db.Close()
 		}
 		if r.db != nil {
 			r.db.VerifStopOracle()
@@ -625,7 +637,8 @@ func dbExec(ops []string) (dops []string, res []string) {
 			r.gated = false
 			r.mu.Unlock()
 			r.unpark()
-			r.db.Close()
+			// (under the watchdog: a Close that never returns is reported with the goroutine stacks)
+			r.call(func() { r.db.Close() })
 			r.mu.Lock()
 			r.log("close", "ok")
 			r.mu.Unlock()
